@@ -26,7 +26,8 @@ EXTENDS Integers, Sequences, FiniteSets, TLC
 
 CONSTANTS PortCap,                  \* capacity of each port buffer
           Dev,                      \* subset of {"EmptyWarp", "EmptyBlock", "EmptyKernel"}
-          DispatchReportsProgress   \* FALSE on the pinned tree
+          DispatchReportsProgress,  \* FALSE on the pinned tree
+          Logging                   \* TRUE: S.log holds the port events of the last tick (trace validation)
 
 VARIABLE S   \* the whole simulator state (a record), see InitState
 vars == <<S>>
@@ -86,25 +87,39 @@ InitState(sh, t) ==
    awake |-> [x \in Comps(sh) \cup Conns(sh) |-> FALSE],
    rr |-> [x \in Conns(sh) |-> 0],
    gotK |-> 0, gotB |-> 0, gotW |-> 0,      \* units received by a device / SM / sub-core so far
-   executed |-> 0, reportedK |-> 0, err |-> {}]
+   executed |-> 0, reportedK |-> 0, err |-> {},
+   log |-> <<>>]                            \* port events of the last tick, in order (only if Logging)
 
 \* ------------------------------------------------------------- port layer
+\* what a message carries, as the port hooks see it
+Payload(st, m) ==
+  CASE m.t = "K" -> st.tr[m.a]
+    [] m.t = "B" -> st.tr[m.a][m.b]
+    [] m.t = "W" -> st.tr[m.a][m.b][m.c]
+    [] m.t = "KF" -> <<m.a, 0, 0>>
+    [] m.t = "BF" -> <<m.dst.d, m.a, 0>>
+    [] m.t = "WF" -> <<m.dst.d, m.dst.s, m.a>>
+LogEv(st, e, p, q, pl) == IF Logging THEN [st EXCEPT !.log = Append(@, [e |-> e, p |-> p, q |-> q, pl |-> pl])] ELSE st
+
 CanSend(st, p) == Len(st.out[p]) < PortCap
 \* Port.Send: NotifySend when the outgoing buffer was empty
 SendF(st, p, m) ==
-  [st EXCEPT !.out[p] = Append(@, m), !.awake[ConnOf(p)] = @ \/ st.out[p] = <<>>]
-\* Port.Deliver: NotifyRecv when the incoming buffer was empty
-DeliverF(st, q, m) ==
-  [st EXCEPT !.inb[q] = Append(@, m), !.awake[Owner(q)] = @ \/ st.inb[q] = <<>>]
+  LogEv([st EXCEPT !.out[p] = Append(@, m), !.awake[ConnOf(p)] = @ \/ st.out[p] = <<>>],
+        "Send" \o m.t, p, m.dst, Payload(st, m))
+\* Port.Deliver: NotifyRecv when the incoming buffer was empty (p = the sending port)
+DeliverF(st, p, q, m) ==
+  LogEv([st EXCEPT !.inb[q] = Append(@, m), !.awake[Owner(q)] = @ \/ st.inb[q] = <<>>], "Xfer", p, q, m.t)
 \* Port.RetrieveIncoming: NotifyAvailable when the buffer was full
 RetrieveInF(st, q) ==
-  IF Len(st.inb[q]) = PortCap
-  THEN LET x == ConnOf(q)
-           ps == PortsOfConn(st.shape, x)
-           woken == {Owner(ps[i]) : i \in {j \in DOMAIN ps : ps[j] # q}} IN
-       [st EXCEPT !.inb[q] = Tail(@),
-                  !.awake = [y \in DOMAIN @ |-> IF y \in woken \/ y = x THEN TRUE ELSE @[y]]]
-  ELSE [st EXCEPT !.inb[q] = Tail(@)]
+  LET m == Head(st.inb[q])
+      s1 == IF Len(st.inb[q]) = PortCap
+            THEN LET x == ConnOf(q)
+                     ps == PortsOfConn(st.shape, x)
+                     woken == {Owner(ps[i]) : i \in {j \in DOMAIN ps : ps[j] # q}} IN
+                 [st EXCEPT !.inb[q] = Tail(@),
+                            !.awake = [y \in DOMAIN @ |-> IF y \in woken \/ y = x THEN TRUE ELSE @[y]]]
+            ELSE [st EXCEPT !.inb[q] = Tail(@)] IN
+  LogEv(s1, "Recv" \o m.t, q, q, Payload(st, m))
 \* Port.RetrieveOutgoing: NotifyPortFree when the buffer was full
 RetrieveOutF(st, p) ==
   [st EXCEPT !.out[p] = Tail(@), !.awake[Owner(p)] = @ \/ Len(st.out[p]) = PortCap]
@@ -246,7 +261,7 @@ ForwardMany(st, p, prog) ==
   IF st.out[p] = <<>> THEN R(st, prog)
   ELSE LET m == Head(st.out[p]) IN
        IF Len(st.inb[m.dst]) >= PortCap THEN R(st, prog)
-       ELSE ForwardMany(RetrieveOutF(DeliverF(st, m.dst, m), p), p, TRUE)
+       ELSE ForwardMany(RetrieveOutF(DeliverF(st, p, m.dst, m), p), p, TRUE)
 
 \* middleware.Tick: every port once, starting at nextPortID (round robin)
 RECURSIVE ForwardPorts(_, _, _, _, _)
@@ -261,7 +276,7 @@ TickConnF(st, x) ==
   [r.st EXCEPT !.awake[x] = @ \/ r.prog, !.rr[x] = (@ + 1) % Len(ps)]
 
 \* ------------------------------------------------------------------- steps
-Asleep(st, x) == [st EXCEPT !.awake[x] = FALSE]
+Asleep(st, x) == [st EXCEPT !.awake[x] = FALSE, !.log = <<>>]
 TickOf(st, x) ==
   CASE x.k = "Driver" -> TickDriverF(Asleep(st, x))
     [] x.k = "GPU" -> TickGpuF(Asleep(st, x), x.d)
@@ -284,9 +299,10 @@ Idle == \A x \in DOMAIN S.awake : ~S.awake[x]
 RECURSIVE SumFrom(_, _)
 SumFrom(s, i) == IF i > Len(s) THEN 0 ELSE s[i] + SumFrom(s, i + 1)
 SumSeq(s) == SumFrom(s, 1)
-NBlocks == SumSeq([k \in 1..Len(S.tr) |-> Len(S.tr[k])])
-NWarps == SumSeq([k \in 1..Len(S.tr) |-> SumSeq([b \in 1..Len(S.tr[k]) |-> Len(S.tr[k][b])])])
-NInsts == SumSeq([k \in 1..Len(S.tr) |-> SumSeq([b \in 1..Len(S.tr[k]) |-> SumSeq(S.tr[k][b])])])
+\* totals of the kernels submitted so far
+NBlocks == SumSeq([k \in 1..S.nextK |-> Len(S.tr[k])])
+NWarps == SumSeq([k \in 1..S.nextK |-> SumSeq([b \in 1..Len(S.tr[k]) |-> Len(S.tr[k][b])])])
+NInsts == SumSeq([k \in 1..S.nextK |-> SumSeq([b \in 1..Len(S.tr[k]) |-> SumSeq(S.tr[k][b])])])
 AllDone ==
   /\ S.drv.undisp = <<>> /\ S.drv.unfinished = 0 /\ Len(S.drv.free) = Len(S.shape)
   /\ \A d \in DOMAIN S.gpu : S.gpu[d].undisp = <<>> /\ S.gpu[d].unfinished = 0 /\ S.gpu[d].finished = 0
@@ -295,12 +311,12 @@ AllDone ==
                             /\ Len(S.sm[x].free) = S.shape[x[1]].sub
   /\ \A x \in DOMAIN S.sub : S.sub[x].left = 0 /\ S.sub[x].finished = 0
   /\ \A p \in DOMAIN S.out : S.out[p] = <<>> /\ S.inb[p] = <<>>
-  /\ S.gotK = Len(S.tr) /\ S.gotB = NBlocks /\ S.gotW = NWarps
-  /\ S.executed = NInsts /\ S.reportedK = Len(S.tr)
+  /\ S.gotK = S.nextK /\ S.gotB = NBlocks /\ S.gotW = NWarps
+  /\ S.executed = NInsts /\ S.reportedK = S.nextK
 \* the engine can only run out of events when everything is done: no lost wake-up
 IdleDone == Idle => AllDone
 NoError == S.err = {}
-AtMostOnce == S.gotK <= Len(S.tr) /\ S.gotB <= NBlocks /\ S.gotW <= NWarps /\ S.executed <= NInsts
+AtMostOnce == S.gotK <= S.nextK /\ S.gotB <= NBlocks /\ S.gotW <= NWarps /\ S.executed <= NInsts
 Bounded == \A p \in DOMAIN S.out : Len(S.out[p]) <= PortCap /\ Len(S.inb[p]) <= PortCap
 Termination == <>[](Idle /\ AllDone)
 =============================================================================
